@@ -72,6 +72,7 @@ type world struct {
 	host       string // host path of the world's root directory
 	baseOrder  []string
 	baseSnap   map[string]entry
+	cwd        string // the process's working directory while cases run (outer; the base for the dot layouts)
 }
 
 var theWorld *world
@@ -151,7 +152,10 @@ func (w *world) rebuild() {
 	must(os.Mkdir(w.hosttmp, 0o777))
 	must(os.Mkdir(w.base, 0o755))
 	w.plantBase()
-	must(os.Chdir(w.outer))
+	if w.cwd == "" {
+		w.cwd = w.outer
+	}
+	must(os.Chdir(w.cwd))
 	must(os.Setenv("TMPDIR", w.hosttmp))
 	// fixed old mtimes on everything outside base
 	w.walkOutside(func(p string, st *syscall.Stat_t) {
@@ -354,7 +358,11 @@ func (w *world) resetBase() {
 // process cwd = outer)?
 func (w *world) inBase(p string) bool {
 	if !strings.HasPrefix(p, "/") {
-		p = w.outer + "/" + p
+		cwd := w.cwd
+		if cwd == "" {
+			cwd = w.outer
+		}
+		p = cwd + "/" + p
 	}
 	c := cleanString(p)
 	return c == w.base || strings.HasPrefix(c, w.base+"/")
@@ -366,7 +374,11 @@ func (w *world) inBase(p string) bool {
 // prefixSiblings are directories next to the base named <base's name><suffix>.
 var prefixSiblings = []string{"base-x", "base2"}
 
-var baseLayouts = []string{"clean", "slash", "unclean", "relative", "dotrel"}
+// "dot", "dotslash", "updown": the base is a relative spelling of the working directory itself (the
+// process runs inside the base for these cases).
+var baseLayouts = []string{"clean", "slash", "unclean", "relative", "dotrel", "dot", "dotslash", "updown"}
+
+func cwdIsBase(layout string) bool { return layout == "dot" || layout == "dotslash" || layout == "updown" }
 
 func (w *world) baseSpec(layout string) string {
 	switch layout {
@@ -378,6 +390,12 @@ func (w *world) baseSpec(layout string) string {
 		return "base"
 	case "dotrel":
 		return "./a/../base/"
+	case "dot":
+		return "."
+	case "dotslash":
+		return "./"
+	case "updown":
+		return "a/.."
 	}
 	return w.base
 }
@@ -679,6 +697,14 @@ func runLfs(c lfsCase) *halfOut {
 	w := getWorld()
 	out := &halfOut{Events: map[string]int64{}, BasePath: w.base}
 	spec := w.baseSpec(c.Base)
+	if cwdIsBase(c.Base) {
+		w.cwd = w.base
+		must(os.Chdir(w.base))
+		defer func() {
+			w.cwd = w.outer
+			must(os.Chdir(w.outer))
+		}()
+	}
 	lf, err := localfs.New(context.Background(), localfs.WithBase(spec))
 	if err != nil {
 		panic("c13 harness: localfs.New(" + spec + "): " + err.Error())
